@@ -253,7 +253,10 @@ def run_format(spec, res):
         if any(gen.value_interesting(v) or (isinstance(v, str) and "\n" in v) for v in vals):
             res["nontrivial"].append(h(m))
         if res.get("sample") is None and len(vals) >= 2:
-            res["sample"] = {"message": m, "compact": compact_format(dict(m))[:400]}
+            try:
+                res["sample"] = {"message": m, "compact": compact_format(dict(m))[:400]}
+            except BaseException:
+                pass  # (already reported above)
         if problems:
             res["violations"].append({"msg": problems[0], "mech": None, "detail": {"case": i, "problems": problems[:6], "message": m}})
 
